@@ -32,7 +32,9 @@ type fakeConn struct {
 	closeN    int32 // Close calls made by the pool (the harness uses userClose)
 	unblocked chan struct{}
 	mu        sync.Mutex
-	tr        *useTracker // set in the handle-level scenarios
+	tr        *useTracker   // set in the handle-level scenarios
+	slow      time.Duration // how long Close takes (closing a real connection talks to the network)
+	failNew   error         // what NewStream returns instead of a stream
 }
 
 var closedCh = func() chan struct{} { c := make(chan struct{}); close(c); return c }()
@@ -49,6 +51,9 @@ func (c *fakeConn) Close() error {
 	atomic.AddInt32(&c.closeN, 1)
 	c.once.Do(func() { close(c.closed) })
 	census.Bump()
+	if c.slow > 0 {
+		time.Sleep(c.slow)
+	}
 	return nil
 }
 func (c *fakeConn) userClose()                 { c.once.Do(func() { close(c.closed) }) }
@@ -65,6 +70,10 @@ func (c *fakeConn) NewStream(ctx context.Context, rpc string, enc drpc.Encoding)
 	if c.tr == nil {
 		return nil, fmt.Errorf("not supported")
 	}
+	if atomic.CompareAndSwapInt32(&c.tr.failNew, 1, 0) {
+		// the connection refuses this one stream (its request cannot be encoded, say) and stays open
+		return nil, fmt.Errorf("stream refused")
+	}
 	c.tr.enter(c, "NewStream")
 	st := &fakeStream{c: c, done: make(chan struct{})}
 	return st, nil
@@ -73,9 +82,10 @@ func (c *fakeConn) NewStream(ctx context.Context, rpc string, enc drpc.Encoding)
 // useTracker records how the pool's handles use the underlying connections: a connection is in use
 // from the moment Invoke/NewStream is called on it until the call returned / the stream finished.
 type useTracker struct {
-	mu    sync.Mutex
-	inUse map[*fakeConn]int
-	fails []string
+	failNew int32 // 1: the next NewStream on an underlying connection fails, the connection stays open
+	mu      sync.Mutex
+	inUse   map[*fakeConn]int
+	fails   []string
 }
 
 func (t *useTracker) enter(c *fakeConn, what string) {
@@ -504,6 +514,10 @@ func concurrent(id string, seed uint64, c cfg) runner.Result {
 	var nid int32
 	workers := 4
 	var ops int64
+	// two or three keys; in half of the cases closing a connection takes a moment (the calls that
+	// happen to run meanwhile are the schedule)
+	keys := []string{"a", "b", "c"}[:2+int(seed%2)]
+	slowClose := (seed>>1)%2 == 0
 	for w := 0; w < workers; w++ {
 		w := w
 		wg.Add(1)
@@ -512,7 +526,7 @@ func concurrent(id string, seed uint64, c cfg) runner.Result {
 			r := &payload.SplitMix{S: payload.Hash(seed, uint64(w))}
 			var held []*fakeConn
 			for i := 0; i < 120; i++ {
-				k := []string{"a", "b"}[r.Intn(2)]
+				k := keys[r.Intn(len(keys))]
 				if r.Intn(2) == 0 {
 					var cn *fakeConn
 					if len(held) > 0 && r.Intn(2) == 0 {
@@ -521,6 +535,9 @@ func concurrent(id string, seed uint64, c cfg) runner.Result {
 						k = func() string { m.mu.Lock(); defer m.mu.Unlock(); return m.byConn[cn].key }()
 					} else {
 						cn = newConn(int(atomic.AddInt32(&nid, 1)), false)
+						if slowClose {
+							cn.slow = time.Duration(20+r.Intn(200)) * time.Microsecond
+						}
 					}
 					m.put(k, cn)
 				} else if cn := m.take(k, "concurrent Take"); cn != nil {
@@ -539,7 +556,7 @@ func concurrent(id string, seed uint64, c cfg) runner.Result {
 	census.Quiesce(rig.Watchdog)
 	m.check("after pool.Close")
 	m.final()
-	res := m.result(id, fmt.Sprintf("cap=%d keycap=%d exp=%v concurrent", c.cap, c.kcap, c.exp), []string{fmt.Sprintf("%d workers x 120 ops", workers), "a", "b"})
+	res := m.result(id, fmt.Sprintf("cap=%d keycap=%d exp=%v concurrent keys=%d slow-close=%v", c.cap, c.kcap, c.exp, len(keys), slowClose), []string{fmt.Sprintf("%d workers x 120 ops", workers), "a", "b"})
 	res.Events = ops
 	return res
 }
@@ -607,9 +624,21 @@ func handles(id string, seed uint64, c cfg) runner.Result {
 				fails = append(fails, fmt.Sprintf("%s.Invoke succeeded after %s.Close", h.name, h.name))
 			}
 		case op < 6:
+			refuse := r.Intn(4) == 0
+			if refuse {
+				atomic.StoreInt32(&tr.failNew, 1)
+			}
 			st, err := h.conn.NewStream(context.Background(), "/x", nil)
+			atomic.StoreInt32(&tr.failNew, 0)
 			nstream++
-			hist = append(hist, fmt.Sprintf("%s.NewStream=s%d", h.name, nstream))
+			if refuse {
+				hist = append(hist, fmt.Sprintf("%s.NewStream=refused-by-the-connection", h.name))
+				if err == nil {
+					fails = append(fails, fmt.Sprintf("%s.NewStream succeeded although the underlying connection refused the stream", h.name))
+				}
+			} else {
+				hist = append(hist, fmt.Sprintf("%s.NewStream=s%d", h.name, nstream))
+			}
 			if err == nil {
 				streams = append(streams, &open{h: h, wrapped: st, n: nstream})
 				if h.closed {
@@ -742,12 +771,12 @@ func gen(tier string, seed uint64) []runner.Scenario {
 			}
 		}
 	}
-	creps := 1
+	creps := 2
 	if thorough {
 		creps = 12
 	}
-	for _, cp := range []int{0, 1, 3} {
-		for _, kc := range []int{0, 2} {
+	for _, cp := range []int{0, 1, 2, 3} {
+		for _, kc := range []int{0, 1, 2} {
 			for _, exp := range []time.Duration{0, 200 * time.Microsecond} {
 				for rep := 0; rep < creps; rep++ {
 					c := cfg{cp, kc, exp}
@@ -766,7 +795,7 @@ func main() {
 	runner.Main(runner.Check{
 		Property: "C15",
 		Level:    "exploration",
-		Rule:     "one case = one history on one pool of fake connections: (seq) 4-24 seeded Put/Take/put-back/outside-close/unblock operations over 1-3 keys for every (Capacity, KeyCapacity) in {-1,0,1,2,3}^2 with no expiry firing; (expiry) Expiration=1ms, an expiry callback parked at one of its three internal points (fired / after Close / before the lock), 1-5 operations (Take, Put, put-back, pool.Close) run inside that window, release, more operations; (concurrent) 4 goroutines x 120 Put/Take with perturbed scheduling, with and without expiry; (handles) 2-3 connection handles from Pool.Get over 1-2 keys, 6-19 seeded Invoke / NewStream / finish-a-stream / handle.Close operations: an underlying connection never serves two callers at once and never after it was closed, a wrapped stream's context ends only after the stream finished, every dialed connection ends up closed exactly once. After every operation and in every window the pool is walked under its lock. Non-trivial: histories of >= 3 operations. Distinct: by configuration and history.",
+		Rule:     "one case = one history on one pool of fake connections: (seq) 4-24 seeded Put/Take/put-back/outside-close/unblock operations over 1-3 keys for every (Capacity, KeyCapacity) in {-1,0,1,2,3}^2 with no expiry firing; (expiry) Expiration=1ms, an expiry callback parked at one of its three internal points (fired / after Close / before the lock), 1-5 operations (Take, Put, put-back, pool.Close) run inside that window, release, more operations; (concurrent) 4 goroutines x 120 Put/Take over 2-3 keys with perturbed scheduling, with and without expiry, in half of the cases with connections whose Close takes 20-220 us; (handles) 2-3 connection handles from Pool.Get over 1-2 keys, 6-19 seeded Invoke / NewStream (a quarter of them refused by the underlying connection, which stays open) / finish-a-stream / handle.Close operations: an underlying connection never serves two callers at once and never after it was closed, a wrapped stream's context ends only after the stream finished, every dialed connection ends up closed exactly once. After every operation and in every window the pool is walked under its lock. Non-trivial: histories of >= 3 operations. Distinct: by configuration and history.",
 		Assumptions: []string{
 			"which eligible connection Take returns and which entry is evicted are not asserted",
 			"a connection that was already closed when Put is called may be dropped without a pool-initiated Close",
